@@ -37,6 +37,82 @@ def gen_step(rng: random.Random, kind: str, schema: t.Dict[str, str], st: t.Dict
     """returns a step valid for `schema` and updates schema / determinism state in place"""
     g = X.Gen(rng, schema)
     cols = list(schema)
+    # focused programs: every step reads or rewrites one int column, so consecutive steps interact through it
+    focus = st.get("focus") if st.get("focus") in schema and schema.get(st.get("focus")) == "int" else None
+    if focus:
+        f = focus
+        if kind == "where":
+            st["total"] = False
+            return {"k": "where", "p": ("bin", rng.choice(X.CMP), ("col", f), ("lit", rng.choice([0, 1, 2, 3])))}
+        if kind == "select":
+            # mostly order-reversing rewrites: reading the old value where the new one is meant then changes filters *and* sort order
+            rew = rng.choice([("bin", "sub", ("lit", 3), ("col", f)), ("neg", ("col", f)), ("bin", "sub", ("lit", 3), ("col", f)),
+                              ("ite", ("bin", "gt", ("col", f), ("lit", 1)), ("lit", 0), ("col", f))])
+            items = [[c, rew if c == f else ("col", c)] for c in cols]
+            if rng.random() < 0.3 and len(items) > 1:
+                rng.shuffle(items)
+            st["total"] = False
+            return {"k": "select", "items": items}
+        if kind == "withColumn":
+            e = rng.choice([("bin", "add", ("col", f), ("lit", 1)), ("bin", "sub", ("lit", 2), ("col", f)), ("neg", ("col", f)),
+                            ("ite", ("isNull", ("col", f)), ("lit", 1), ("bin", "mul", ("col", f), ("lit", -1)))])
+            st["total"] = False
+            return {"k": "withColumn", "n": f, "e": e}
+        if kind == "withColumnRenamed":
+            fresh = [x for x in NEW_NAMES if x not in cols]
+            if not fresh:
+                return None
+            b = rng.choice(fresh)
+            items = [(b if c == f else c, ty) for c, ty in schema.items()]
+            schema.clear()
+            schema.update(items)
+            st["total"], st["focus"] = False, b
+            return {"k": "withColumnRenamed", "a": f, "b": b}
+        if kind == "drop":
+            others = [c for c in cols if c != f]
+            if not others:
+                return None
+            c = rng.choice(others)
+            del schema[c]
+            st["total"] = False
+            return {"k": "drop", "ns": [c]}
+        if kind == "orderBy":
+            ks = [f] + [c for c in cols if c != f]
+            keys = []
+            for c in ks:
+                desc = rng.random() < 0.4
+                keys.append({"name": c, "desc": desc, "nullsFirst": (not desc) if rng.random() < 0.6 else (rng.random() < 0.5)})
+            st["total"] = True
+            st["order_total_last"] = True
+            return {"k": "orderBy", "keys": keys}
+        if kind == "fillna":
+            st["total"] = False
+            return {"k": "fillna", "v": rng.choice([7, 1, 0]), "sub": [f] if rng.random() < 0.6 else [c for c in cols if schema[c] == "int"]}
+        if kind == "toDF":
+            pool = [x for x in NEW_NAMES + ["c1", "c2", "c3", "c4", "c5", "c6"] if x not in cols]
+            rng.shuffle(pool)
+            names = [pool.pop() if (c == f or rng.random() < 0.5) else c for c in cols]
+            st["focus"] = names[cols.index(f)]
+            items = [(n, schema[c]) for n, c in zip(names, cols)]
+            schema.clear()
+            schema.update(items)
+            st["total"] = False
+            return {"k": "toDF", "names": names}
+        if kind == "dropna":
+            if "num_nulls" in cols:
+                return None
+            st["total"] = False
+            return {"k": "dropna", "howAll": rng.random() < 0.3, "thresh": None, "sub": [f]}
+        if kind == "unpivot":
+            if "var" in cols or "val" in cols:
+                return None
+            rest = [c for c in cols if c != f]
+            ids = rng.sample(rest, rng.randint(0, len(rest))) if rest else []
+            items = [(c, schema[c]) for c in ids] + [("var", "str"), ("val", "int")]
+            schema.clear()
+            schema.update(items)
+            st["total"], st["focus"] = False, "val"
+            return {"k": "unpivot", "ids": ids, "vals": [f], "var": "var", "val": "val"}
     if kind == "where":
         st["total"] = False
         return {"k": "where", "p": g.bool_expr(2)}
@@ -125,9 +201,21 @@ def gen_step(rng: random.Random, kind: str, schema: t.Dict[str, str], st: t.Dict
         if rng.random() < 0.5 and len(sub) > 1:
             sub = rng.sample(sub, rng.randint(1, len(sub)))
         st["total"] = False
-        if ty == "int":
-            return {"k": "replace", "old": rng.choice([0, 1, 2, 3]), "new": rng.choice([9, 0, -1]), "sub": sub}
-        return {"k": "replace", "old": rng.choice(["a", "b", ""]), "new": rng.choice(["q", "a"]), "sub": sub}
+        if focus:
+            ty, sub = "int", ([focus] if rng.random() < 0.6 else [c for c in cols if schema[c] == "int"])
+        # one pair (scalar form), or several (list / dict form); chains (1->2, 2->3) and swaps (1->2, 2->1) make a
+        # simultaneous lookup differ from a cascade of single replacements
+        olds = [0, 1, 2, 3] if ty == "int" else ["a", "b", ""]
+        news = [9, 0, -1, 1, 2, 3] if ty == "int" else ["q", "a", "b", ""]
+        n = 1 if rng.random() < 0.45 else rng.randint(2, 3)
+        ks = rng.sample(olds, min(n, len(olds)))
+        pairs = []
+        for i, o in enumerate(ks):
+            if len(ks) > 1 and rng.random() < 0.6:
+                pairs.append([o, ks[(i + 1) % len(ks)]])  # chain / cycle through the keys
+            else:
+                pairs.append([o, rng.choice(news)])
+        return {"k": "replace", "pairs": pairs, "form": rng.choice(["dict", "list"]) if len(pairs) > 1 else rng.choice(["scalar", "dict", "list"]), "sub": sub}
     if kind == "toDF":
         pool = [x for x in NEW_NAMES + ["c1", "c2", "c3", "c4", "c5", "c6"] if True]
         rng.shuffle(pool)
@@ -169,13 +257,15 @@ def gen_step(rng: random.Random, kind: str, schema: t.Dict[str, str], st: t.Dict
     raise ValueError(kind)
 
 
-def gen_program(rng: random.Random, kinds: t.Sequence[str]) -> t.Optional[dict]:
+def gen_program(rng: random.Random, kinds: t.Sequence[str], focus: bool = False) -> t.Optional[dict]:
     schema = {"x": "int", "y": "int", "s": "str"}
     if rng.random() < 0.3:
         schema = {"x": "int", "y": "int"}
     base_schema = dict(schema)
     rows = X.gen_table(rng, schema, max_rows=rng.choice([6, 6, 13]))
     st: t.Dict[str, t.Any] = {"total": False}
+    if focus:
+        st["focus"] = rng.choice(["x", "y"])
     steps = []
     for i, k in enumerate(kinds):
         more_limits = any(kk == "limit" for kk in kinds[i + 1 : i + 2])
@@ -189,6 +279,13 @@ def gen_program(rng: random.Random, kinds: t.Sequence[str]) -> t.Optional[dict]:
 # ------------------------------------------------------------------------------------------------
 # encoders
 # ------------------------------------------------------------------------------------------------
+
+
+def pairs_of(s: dict) -> t.List[t.List[t.Any]]:
+    """the (old, new) pairs of a replace step (older corpus files carry one pair as old/new)"""
+    if "pairs" in s:
+        return [list(p) for p in s["pairs"]]
+    return [[s["old"], s["new"]]]
 
 
 def step_to_lean(s: dict) -> t.Any:
@@ -212,7 +309,7 @@ def step_to_lean(s: dict) -> t.Any:
     if k == "fillna":
         return {"fillna": {"v": vlib.lval(s["v"]), "sub": s["sub"]}}
     if k == "replace":
-        return {"replace": {"old": vlib.lval(s["old"]), "new": vlib.lval(s["new"]), "sub": s["sub"]}}
+        return {"replace": {"pairs": [[vlib.lval(o), vlib.lval(n)] for o, n in pairs_of(s)], "sub": s["sub"]}}
     if k == "toDF":
         return {"toDF": {"names": s["names"]}}
     if k == "dropna":
@@ -254,7 +351,13 @@ def show_step(s: dict) -> str:
     if k == "fillna":
         return f"fillna({s['v']!r}, subset={s['sub']})"
     if k == "replace":
-        return f"replace({s['old']!r}, {s['new']!r}, subset={s['sub']})"
+        ps = pairs_of(s)
+        form = s.get("form", "scalar")
+        if form == "scalar" and len(ps) == 1:
+            return f"replace({ps[0][0]!r}, {ps[0][1]!r}, subset={s['sub']})"
+        if form == "list":
+            return f"replace({[o for o, _ in ps]!r}, {[n for _, n in ps]!r}, subset={s['sub']})"
+        return f"replace({dict((o, n) for o, n in ps)!r}, subset={s['sub']})"
     if k == "toDF":
         return "toDF(" + ", ".join(map(repr, s["names"])) + ")"
     if k == "dropna":
@@ -315,7 +418,13 @@ def apply_step(df: t.Any, s: dict, F: t.Any) -> t.Any:
     if k == "fillna":
         return df.fillna(s["v"], subset=s["sub"])
     if k == "replace":
-        return df.replace(s["old"], s["new"], subset=s["sub"])
+        ps = pairs_of(s)
+        form = s.get("form", "scalar")
+        if form == "scalar" and len(ps) == 1:
+            return df.replace(ps[0][0], ps[0][1], subset=s["sub"])
+        if form == "list":
+            return df.replace([o for o, _ in ps], [n for _, n in ps], subset=s["sub"])
+        return df.replace({o: n for o, n in ps}, subset=s["sub"])
     if k == "toDF":
         return df.toDF(*s["names"])
     if k == "dropna":
@@ -425,8 +534,13 @@ def well_typed(c: dict) -> bool:
             if any(types.get(n) != want for n in s["sub"]):
                 return False
         elif k == "replace":
-            want = "str" if isinstance(s["old"], str) else "int"
-            if any(types.get(n) != want for n in s["sub"]) or isinstance(s["new"], str) != isinstance(s["old"], str):
+            ps = pairs_of(s)
+            if not ps:
+                return False
+            want = "str" if isinstance(ps[0][0], str) else "int"
+            if any(types.get(n) != want for n in s["sub"]) or any(isinstance(o, str) != (want == "str") or isinstance(n, str) != (want == "str") for o, n in ps):
+                return False
+            if len({o for o, _ in ps}) != len(ps):
                 return False
         elif k == "toDF":
             types = {n: ty for n, ty in zip(s["names"], types.values())}
@@ -563,6 +677,15 @@ def cases_for(ctx: Ctx) -> t.List[dict]:
                 if c:
                     c["origin"] = f"exhaustive-kinds-L{L}"
                     cases.append(c)
+    # focused family: every kind triple (quick: over the kinds that share a SELECT block or rewrite values), all steps
+    # touching one column — a step placed in the wrong block shows up only when its neighbours use the same column
+    fk = KINDS if ctx.thorough else ["where", "select", "withColumn", "orderBy", "limit", "fillna", "replace", "distinct"]
+    for kinds in itertools.product(fk, repeat=3):
+        for _ in range(2 if ctx.thorough else 1):
+            c = gen_program(ctx.rng, kinds, focus=True)
+            if c:
+                c["origin"] = "focused-kinds-L3"
+                cases.append(c)
     # targeted family: consecutive limits (merged inside one block) for every pair from a grid, on a 13-row table
     grid = [0, 1, 2, 5, 7, 10, 12, 50]
     rows13 = [[i % 7, (i * 5) % 11] for i in range(13)]
